@@ -1327,6 +1327,18 @@ def cases(tier: str, base_seed: int):  # noqa: ANN201
     for r in ((7,) if tier == "quick" else (7, 19, 31)):
         yield {"scenario": "scripted", "name": "long_chain_130", "seed": 1500, "ops": chain, "crash": {"mod": 120, "rem": r},
                "recovery": "none"}
+    if tier == "quick":
+        # a sample of real SIGKILLs at system-call granularity (a kill INSIDE a commit, between two page writes, is invisible at
+        # statement granularity); the thorough tier runs every kill point
+        if "strace_kills" not in REACH:
+            REACH.append("strace_kills")
+        scripted_q = dict(_scripted())
+        for when in range(2, 42, 3):
+            yield {"scenario": "strace", "name": "three_credentials", "seed": 2000, "ops": scripted_q["three_credentials"],
+                   "kill": {"call": "pwrite64", "when": when}}
+        for when in (3, 9):
+            yield {"scenario": "strace", "name": "wallet_blobs", "seed": 2002, "ops": scripted_q["wallet_blobs"],
+                   "kill": {"call": "pwrite64", "when": when}}
     if tier == "thorough":
         for probe in ("strace_kills", "selfkill_children", "copy_model_agrees", "checkpoint_while_open"):
             if probe not in REACH:
